@@ -179,7 +179,7 @@ fn setup(o: &Opts, scratch: &Path, only_complete_reference: bool) -> Result<Ctx,
         _ => (String::new(), String::new()),
     };
     let complete = matches!(&info.index, dirstate::IndexInfo::Open { shipped: true, .. });
-    let problem = if !ok_exit || version.is_empty() || !complete {
+    let problem = if !ok_exit || info.meta_text.as_deref().unwrap_or("").is_empty() || !complete {
         Some(format!(
             "a clean first start on an empty data directory ended with {:?} and left metadata {:?} over index {:?}; stderr: {}",
             out.exit,
